@@ -159,6 +159,9 @@ class FloatE(SymE):
     def use_contract(self, qual, summary):
         pass  # concrete run: the real callee body is executed
 
+    def pure_contract(self, qual, fields, result="real"):
+        pass
+
     def drop_contract(self, qual):
         pass
 
